@@ -4,6 +4,7 @@ exactly how a hang is introduced: every producer wakes its consumer, the wake-up
 complement of the wait predicate, worker results are observed, shutdown wakes everyone."""
 import re
 import core, lib, lockorder
+from props import shared
 from core import call_matches, call_names, op_place, op_local, backward_slice
 
 LEVEL = 'proof'
@@ -26,6 +27,7 @@ def sites_on(b, pats, field):
 
 
 def run(ctx):
+    shared.more_work_signal(ctx, '8')      # every accepted commit is written to the log: the log worker keeps going while a commit is (re)queued
     F = ctx.F
     # ---------------------------------------------------------------- 1. wake-up pairing
     cr = ctx.body('db::DbInner::commit_raw')
